@@ -5,7 +5,7 @@
   status Committed) is in the log. Ids must be fresh: that was violated before the fix of D-TXID.
 -/
 import Nuts.Model.Tx
-import NutsProofs.Facts
+import NutsProofs.Pins.Commit
 namespace NutsProofs.Replay
 open Nuts Nuts.Model Nuts.Model.DB
 
